@@ -264,7 +264,18 @@ def queryObs (st : St) (c : Cmd) : St × Verdict :=
       let terms := s.thesTerms (strBytes (c.arg 2))
       let probe := unhxList (c.getD "probe" "-")
       let bits := if probe.isEmpty then "-" else String.join (probe.map (fun p => b01 (terms.contains p)))
-      (st, .exact s!"terms={hxList terms} contains={bits}")
+      -- listing through a key range [lo, hi) (only non-empty, well-formed ranges are generated) and
+      -- through the automaton that accepts nothing
+      let lo := let v := c.getD "lo" "*"; if v == "*" then none else some (unhx v)
+      let hi := let v := c.getD "hi" "*"; if v == "*" then none else some (unhx v)
+      let sel := terms.filter (fun t =>
+        (match lo with | none => true | some l => !Bytes.lt t l) &&
+        (match hi with | none => true | some h => Bytes.lt t h) &&
+        c.getD "aut" "all" == "all")
+      (st, .exact s!"terms={hxList sel} contains={bits}")
+    | "docids" =>
+      let n := c.nat "n" 0
+      (st, .exact (strList ((List.range n).map (fun d => match s.docID d with | none => "nil" | some b => hx b))))
     | "thes" => (st, .exact (thesObs s c))
     | _ => (st, .none)
 
@@ -453,6 +464,7 @@ def commandObs (st : St) (c : Cmd) : St × Verdict :=
                            d3 := if st.d3.contains (c.arg 0) then st.d3.insert (c.arg 1) true else st.d3 },
                  .pred (fun g => g.startsWith "ok size=") "ok size=<n>")
   | "writeto" =>
+    if c.getD "nilw" "0" == "1" then (st, .pred (fun g => g.startsWith "err:other") "an error (no writer)") else
     match c.get? "fail" with
     | some f =>
       let limit := f.toNat?.getD 0
@@ -528,6 +540,10 @@ def commandObs (st : St) (c : Cmd) : St × Verdict :=
       -- (nothing at the path) or completes with the reference content; either way no engine index survives
       (st', .pred (fun g => (g.startsWith "err:closed file=0" || okPred g) && kvOf g "englive" == some "0")
             ("(err:closed file=0 or " ++ okStr ++ ") and englive=0"))
+    else if cl.startsWith "report:" ∧ (c.get? "fsize").isSome then
+      -- a size limit far below the output AND a cancellation: an error of either kind, nothing left
+      (st', .pred (fun g => g.startsWith "err:closed file=0" || g.startsWith "err:io file=0" || okPred g)
+            ("err:closed file=0 or err:io file=0 (write fault and cancellation in one merge), or - the output fits the limit and the closure came too late - " ++ okStr))
     else if cl.startsWith "report:" then
       (st', .pred (fun g => g.startsWith "err:closed file=0" || okPred g) ("err:closed file=0 or " ++ okStr ++ " with the reference content digest"))
     else if (c.get? "engfail").isSome then
